@@ -104,6 +104,9 @@ type T struct {
 	Name string   // OVar, OUF
 	I, J int
 	ID   int
+	// UFDep: the term contains an application of an uninterpreted function
+	// (its value under a solver model is not comparable with a native run).
+	UFDep bool
 }
 
 // Factory hash-conses terms. Not safe for concurrent use.
@@ -153,6 +156,12 @@ func (f *Factory) intern(t *T) *T {
 		return x
 	}
 	t.ID = f.next
+	t.UFDep = t.Op == OUF
+	for _, a := range t.Args {
+		if a.UFDep {
+			t.UFDep = true
+		}
+	}
 	f.next++
 	f.tab[k] = t
 	if t.Op == OVar {
@@ -538,6 +547,13 @@ func (f *Factory) bin(op Op, a, b *T) *T {
 		}
 		if b.IsConst() && b.Val.Sign() > 0 && new(big.Int).And(b.Val, new(big.Int).Sub(b.Val, one)).Sign() == 0 {
 			return f.bin(OBvAnd, a, f.BVConst(new(big.Int).Sub(b.Val, one), w))
+		}
+	}
+	switch op {
+	case OBvAdd, OBvMul, OBvAnd, OBvOr, OBvXor:
+		// commutative: canonical operand order (constants last)
+		if !a.IsConst() && !b.IsConst() && a.ID > b.ID {
+			a, b = b, a
 		}
 	}
 	return f.mk(op, a.Sort, a, b)
